@@ -372,6 +372,7 @@ func runC16(r *hk.Run) {
 	runSequences(r, rng.Fork())
 	runResends(r, rng.Fork())
 	runWriterInterleavings(r, rng.Fork())
+	runWriterFaults(r, rng.Fork())
 	runBursts(r, rng.Fork())
 	runFragments(r, rng.Fork())
 	runRedirects(r, rng.Fork())
